@@ -30,6 +30,7 @@ inductive Req
   | resetInterrupted
   | rescanEnv
   | reconcile
+  | checkConsistency
 
 def unitOut (r : M KState) : M (KState × String) := do pure (← r, "-")
 
@@ -76,6 +77,7 @@ def KState.exec (s : KState) (cfg : KConfig) : Req → M (KState × String)
   | .resetInterrupted => unitOut s.resetInterrupted
   | .rescanEnv => unitOut (s.rescanEnvVars cfg)
   | .reconcile => unitOut (s.reconcileTargets cfg)
+  | .checkConsistency => unitOut s.checkConsistency
 
 /-- One request as a transaction: a rejected request leaves the state unchanged (rollback). -/
 def KState.step (s : KState) (cfg : KConfig) (r : Req) : KState :=
